@@ -207,6 +207,50 @@ def ben_copy(x):
     return x
 
 
+def ben_len(x, w):
+    """Length of the bencoding of x as a linear term: opaque strings contribute a
+    symbolic length (2 + n for 1 <= n <= 9 characters, a stated bound of the
+    length-sensitive obligations), everything else its concrete length."""
+    E = eng()
+    if isinstance(x, bool):
+        return 6
+    if isinstance(x, int):
+        return len("i%de" % x)
+    if isinstance(x, SymInt):
+        key = "benlen.int.%s" % x.e.sexpr()
+        if key not in w.benlens:
+            w.benlens[key] = E.int("benlen.int.%d" % len(w.benlens), 3, 25)
+        return w.benlens[key]
+    if isinstance(x, OStr):
+        if x._nonempty is False:
+            return 2
+        key = "benlen.%s" % x.name
+        if key not in w.benlens:
+            w.benlens[key] = E.int(key, 3 if x._nonempty else 2, 11)
+        return w.benlens[key]
+    if isinstance(x, str):
+        b = x.encode("utf-8") if not isinstance(x, SymIntStr) else b"12345"
+        return len(str(len(b))) + 1 + len(b)
+    if isinstance(x, ABuf):
+        n = x.size()
+        if isinstance(n, int):
+            return len(str(n)) + 1 + n
+        return n + 6
+    if isinstance(x, (bytes, bytearray)):
+        return len(str(len(x))) + 1 + len(x)
+    if isinstance(x, (list, tuple)):
+        t = 2
+        for v in x:
+            t = t + ben_len(v, w)
+        return t
+    if isinstance(x, dict):
+        t = 2
+        for k, v in x.items():
+            t = t + ben_len(k, w) + ben_len(v, w)
+        return t
+    raise Unsupported("ben_len(%s)" % type(x).__name__)
+
+
 def ben_check(x, path="$"):
     """Encoder's type dispatch: what pyben.dump accepts."""
     if isinstance(x, (str, OStr, SymStr)):
@@ -301,6 +345,8 @@ class World:
     def __init__(self, fs, clock=1_700_000_000, mutants=None, argv=None, quote_model=True):
         self.havoc_used = False
         self._fresh = 0
+        self.track_lengths = False
+        self.benlens = {}
         self.fs = fs
         self.clock = clock
         self.mutants = mutants or {}
@@ -345,7 +391,8 @@ class World:
 
         def loads(data, to_json=False):
             segs = [s for s in data.segs] if isinstance(data, ABuf) else None
-            if segs and len(segs) == 1 and segs[0][0] == "T" and isinstance(segs[0][1], BenTok):
+            if segs and segs[0][0] == "T" and isinstance(segs[0][1], BenTok) and (len(segs) == 1 or w.track_lengths):
+                # pyben's decoder stops after the first complete value and ignores whatever follows
                 return ben_copy(segs[0][1].obj)
             raise DecodeError("not a complete bencoded value: %r" % (data,))
 
@@ -353,12 +400,12 @@ class World:
             ben_check(obj)
             snap = ben_copy(obj)
             w.dumps_log.append(("dumps", snap))
-            return ABuf.of([("T", BenTok(snap), 0, None)])
+            return ABuf.of([("T", BenTok(snap), 0, ben_len(snap, w) if w.track_lengths else None)])
 
         def dump(obj, buffer):
             ben_check(obj)
             snap = ben_copy(obj)
-            enc = ABuf.of([("T", BenTok(snap), 0, None)])
+            enc = ABuf.of([("T", BenTok(snap), 0, ben_len(snap, w) if w.track_lengths else None)])
             w.dumps_log.append(("dump", snap, buffer if isinstance(buffer, str) else str(buffer)))
             if hasattr(buffer, "write"):
                 buffer.write(enc)
